@@ -18,6 +18,18 @@ impl VxHash for crate::graph::RspFile {
     open spec fn vx_fed(&self) -> crate::hs::Fed { crate::hs::Fed::Rsp(*self) }
     #[verifier::external_body] fn vx_hash(&self, h: &mut std::collections::hash_map::DefaultHasher) { std::hash::Hash::hash(self, h) }
 }
+impl VxHash for crate::graph::FileId {
+    open spec fn vx_fed(&self) -> crate::hs::Fed { crate::hs::Fed::Num(self.0 as int) }
+    #[verifier::external_body] fn vx_hash(&self, h: &mut std::collections::hash_map::DefaultHasher) { std::hash::Hash::hash(self, h) }
+}
+impl VxHash for u32 {
+    open spec fn vx_fed(&self) -> crate::hs::Fed { crate::hs::Fed::Num(*self as int) }
+    #[verifier::external_body] fn vx_hash(&self, h: &mut std::collections::hash_map::DefaultHasher) { std::hash::Hash::hash(self, h) }
+}
+impl VxHash for usize {
+    open spec fn vx_fed(&self) -> crate::hs::Fed { crate::hs::Fed::Num(*self as int) }
+    #[verifier::external_body] fn vx_hash(&self, h: &mut std::collections::hash_map::DefaultHasher) { std::hash::Hash::hash(self, h) }
+}
 pub trait VxHasher {
     spec fn vx_hfed(&self) -> Seq<crate::hs::Fed>;
     fn vx_write_u8(&mut self, b: u8) ensures final(self).vx_hfed() == old(self).vx_hfed().push(crate::hs::Fed::Sep);
